@@ -48,7 +48,7 @@ def nontriv(c, x):
 def cls_case(draw):
     row = draw(st.sampled_from(est.ROWS))
     cplx = draw(st.booleans())
-    x = draw(gen.signal(16, 96, "complex" if cplx else "real", kinds=KINDS, noise_levels=(0.1, 1.0)))
+    x = draw(gen.signal(n=draw(gen.lengths(16, 96)), dtype="complex" if cplx else "real", kinds=KINDS, noise_levels=(0.1, 1.0)))
     x = est.sanitize(row, x)
     N = x["n"]
     p = draw(est.params(row, N, cplx))
@@ -110,7 +110,7 @@ FUNCS = ["speriodogram", "CORRELOGRAMPSD", "CORRELATION", "xcorr", "arburg", "ar
 def fn_case(draw):
     fn = draw(st.sampled_from(FUNCS))
     cplx = draw(st.booleans()) if fn != "lpc" else False
-    x = draw(gen.signal(16, 96, "complex" if cplx else "real", kinds=KINDS, noise_levels=(0.1, 1.0)))
+    x = draw(gen.signal(n=draw(gen.lengths(16, 96)), dtype="complex" if cplx else "real", kinds=KINDS, noise_levels=(0.1, 1.0)))
     N = x["n"]
     q = {}
     if fn == "speriodogram":
